@@ -15,7 +15,7 @@ PROPS = {}
 
 PROPS["C17"] = {
     "assumptions": ["T1: <[char]>::sort_unstable replaced by insertion sort (std's documented contract)"],
-    "outside": "sequences longer than 5 characters (in particular beyond the initial buffer capacity 20); "
+    "outside": "sequences longer than 3x4 / 5x2 characters (4x4 does not finish in 15 min), in particular beyond the initial buffer capacity 20 (growth is covered at small scale by jac_cap under C19); "
                "pre-state buffer lengths other than those enumerated",
     "lemmas": [
         {"id": "JAC-set", "text": "Jaccard::<char>::similarity(a,b) on a fresh instance == |A∩B|/|A∪B| (1 for two empty "
@@ -23,7 +23,7 @@ PROPS["C17"] = {
          "bounds": "lengths (la,lb) listed in the instance names, every char any Unicode scalar value; loop unwinding 8",
          "opts": {"unwind": 8, "timeout": 900},
          "quick": grid("jac_fresh", [(1,1),(1,2),(2,2),(2,3),(3,2),(3,3)]),
-         "thorough": grid("jac_fresh", [(1,4),(4,1),(3,4),(4,3),(4,4),(2,5),(5,2),(4,5),(5,4),(5,5)])},
+         "thorough": grid("jac_fresh", [(1,4),(4,1),(3,4),(4,3),(2,5),(5,2)])},
         {"id": "JAC-sym", "text": "rel_dist(b,a) == 1 - similarity(a,b) on independent instances (symmetry)",
          "bounds": "lengths as listed", "opts": {"unwind": 8, "timeout": 900},
          "quick": grid("jac_sym", [(2,2),(3,2)]), "thorough": grid("jac_sym", [(3,4)])},
@@ -31,14 +31,15 @@ PROPS["C17"] = {
                                    "(lengths p1,p2 shorter, equal, longer than needed) the value is the set similarity",
          "bounds": "(la,lb,p1,p2) as listed", "opts": {"unwind": 8, "timeout": 900},
          "quick": grid("jac_hist", [(2,2,1,3),(2,3,1,5),(3,2,3,2)]),
-         "thorough": grid("jac_hist", [(3,3,5,1),(4,4,6,1),(4,3,1,6)])},
+         "thorough": grid("jac_hist", [(3,3,5,1),(4,3,1,6)]), "per_instance": {"jac_hist_4_3_1_6": {"unwind": 10, "timeout": 1800}}},
         {"id": "JAC-merge", "text": "simple_similarity on strictly increasing inputs == |A∩B|/|A∪B|",
          "bounds": "lengths as listed", "opts": {"unwind": 8, "timeout": 900},
-         "quick": grid("jac_simple", [(3,3),(2,4)]), "thorough": grid("jac_simple", [(4,4),(5,5),(6,6)])},
+         "quick": grid("jac_simple", [(3,3),(2,4)]), "thorough": grid("jac_simple", [(4,4),(5,5),(6,6)]),
+         "per_instance": {"jac_simple_4_4": {"unwind": 10}, "jac_simple_5_5": {"unwind": 12}, "jac_simple_6_6": {"unwind": 14}}},
     ],
 }
 
-DL_UNWINDSET = [(r"DistMatrix::init", 24), (r"Vec::<f64>::extend_with", 70)]
+DL_UNWINDSET = [(r"DistMatrix::init", 24), (r"Vec::<f64>::extend_with", 130)]
 
 PROPS["C16"] = {
     "assumptions": ["words are built directly as WordView values (the tokeniser is not executed, DESIGN F5)"],
@@ -50,7 +51,7 @@ PROPS["C16"] = {
                                   "2*distance >= unrestricted Damerau-Levenshtein (both references computed in the harness on the "
                                   "same symbolic words)",
          "bounds": "(n1,n2,capacity) from the instance names; every char any Unicode scalar, every class any of the 8 classes; unwind 8 "
-                   "(init loop 24, resize 70)",
+                   "(init loop 24, resize 130)",
          "opts": {"unwind": 8, "timeout": 1500, "unwindset": DL_UNWINDSET},
          "quick": ["dl_laws_1_1_20", "dl_laws_1_2_20", "dl_laws_2_1_20", "dl_laws_2_2_2",
                    "dl_laws_2_3_3", "dl_laws_3_2_3", "dl_laws_3_1_1", "dl_laws_3_3_3"],
@@ -58,7 +59,7 @@ PROPS["C16"] = {
                       "dl_laws_5_2_5", "dl_laws_2_4_1"]},
         {"id": "DL-sym", "text": "distance(a,b) == distance(b,a), second call on the same instance",
          "bounds": "(n1,n2,capacity) as listed", "opts": {"unwind": 8, "timeout": 1500, "unwindset": DL_UNWINDSET},
-         "quick": ["dl_sym_1_2_2", "dl_sym_2_2_2", "dl_sym_2_3_3", "dl_sym_2_3_1"], "thorough": ["dl_sym_3_3_3", "dl_sym_3_4_4"]},
+         "quick": ["dl_sym_1_2_2", "dl_sym_2_2_2", "dl_sym_2_3_3", "dl_sym_2_3_1"], "thorough": ["dl_sym_3_3_3"]},
         {"id": "DL-discount", "text": "distance with arbitrary character classes <= distance of the same characters with all classes Consonant",
          "bounds": "(n1,n2,capacity) as listed", "opts": {"unwind": 8, "timeout": 1500, "unwindset": DL_UNWINDSET},
          "quick": ["dl_disc_2_2_2", "dl_disc_2_3_3"], "thorough": ["dl_disc_3_3_3", "dl_disc_3_4_4"]},
@@ -67,8 +68,8 @@ PROPS["C16"] = {
                                   "fresh instance; S smaller than needed exercises growth",
          "bounds": "(n1,n2,S) as listed; S ranges over n (two short), n+1 (one short), n+2 (exact), n+3, n+4",
          "opts": {"unwind": 8, "timeout": 1500, "unwindset": DL_UNWINDSET},
-         "quick": ["dl_hist_1_1_2", "dl_hist_1_2_3", "dl_hist_2_2_2", "dl_hist_2_2_3", "dl_hist_2_2_4", "dl_hist_2_2_5", "dl_hist_2_2_6", "dl_hist_3_2_3", "dl_hist_1_3_4"],
-         "thorough": ["dl_hist_2_3_5", "dl_hist_3_3_2", "dl_hist_3_3_3", "dl_hist_3_3_4", "dl_hist_3_3_5", "dl_hist_3_3_7", "dl_hist_4_3_3"]},
+         "quick": ["dl_hist_1_1_2", "dl_hist_1_2_3", "dl_hist_2_2_2", "dl_hist_2_2_3", "dl_hist_2_2_4", "dl_hist_2_2_5", "dl_hist_2_2_6", "dl_hist_3_2_3", "dl_hist_1_3_4", "dl_hist_3_1_5", "dl_hist_1_3_5", "dl_hist_2_3_5"],
+         "thorough": ["dl_hist_4_1_6", "dl_hist_3_3_2", "dl_hist_3_3_3", "dl_hist_3_3_4", "dl_hist_3_3_5", "dl_hist_3_3_7", "dl_hist_4_3_3"]},
         {"id": "DL-inv", "text": "the representation invariant assumed by DL-hist is re-established by every call (and the matrix is "
                                  "at least (n+2)x(n+2) with a flat buffer of size^2)",
          "bounds": "(n1,n2,S) as listed", "opts": {"unwind": 8, "timeout": 1500, "unwindset": DL_UNWINDSET},
@@ -102,9 +103,9 @@ PROPS["C19"] = {
                                       "Jaccard::similarity is in range, from ARBITRARY earlier buffer contents shorter / longer than needed, and from buffers of small CAPACITY (jac_cap: growth path)",
          "bounds": "(la,lb,p1,p2) of the jac_hist / jac_simple instances, (la,lb,cap1,cap2) of jac_cap; all CBMC pointer checks selected",
          "opts": {"unwind": 8, "timeout": 1500},
-         "quick": ["jac_hist_2_2_1_3", "jac_hist_2_3_1_5", "jac_hist_3_2_3_2", "jac_cap_2_3_1_1", "jac_cap_3_2_1_2", "jac_simple_3_3", "jac_simple_2_4"],
-         "thorough": ["jac_hist_3_3_5_1", "jac_hist_4_4_6_1", "jac_hist_4_3_1_6", "jac_cap_2_3_2_2", "jac_cap_3_3_2_1", "jac_simple_5_5", "jac_simple_6_6"],
-         "per_instance": {"jac_simple_5_5": {"unwind": 12}, "jac_simple_6_6": {"unwind": 14}, "jac_hist_4_4_6_1": {"unwind": 10}, "jac_hist_4_3_1_6": {"unwind": 10}}},
+         "quick": ["jac_hist_2_2_1_3", "jac_hist_2_3_1_5", "jac_hist_3_2_3_2", "jac_cap_1_3_1_1", "jac_cap_3_1_1_1", "jac_cap_2_3_1_1", "jac_cap_3_2_1_2", "jac_simple_3_3", "jac_simple_2_4"],
+         "thorough": ["jac_hist_3_3_5_1", "jac_hist_4_3_1_6", "jac_cap_2_3_2_2", "jac_cap_3_3_2_1", "jac_simple_5_5", "jac_simple_6_6"],
+         "per_instance": {"jac_simple_5_5": {"unwind": 12}, "jac_simple_6_6": {"unwind": 14}, "jac_hist_4_3_1_6": {"unwind": 10, "timeout": 1800}}},
     ],
 }
 
